@@ -102,6 +102,12 @@ fn main() {
             let hs = args.get(2).and_then(|s| s.parse().ok()).unwrap_or(1);
             engines::compile::jobdigest_main(hs, args.get(3).map(|s| s.as_str()).unwrap_or("[]"))
         }
+        "counts" => {
+            println!("table windows: {}", engines::images::table_window_count());
+            println!("outline chunks (quick): {}", engines::images::outline_chunk_count_quick());
+            println!("table pairs: {}", engines::images::table_pairs().len());
+            0
+        }
         "hashprobe" => {
             // selftest helper: shows that the hash-seed seam is effective
             for seed in [0u64, 1, 1, 2] {
